@@ -68,6 +68,16 @@ Obligations (what a VIOLATION names)
                                                   the handler forks these outcomes, the engine runs try/except by exception name) => write()
                                                   raises, with NO I/O effect; never falls back to a fresh write  (seed C19-m8)
    append_flag_is_not_reassigned                  no binding of `append` anywhere in write() (ast): the flag is only tested
+ partition_on_columns[hive|drill].  (symbolic, group loop for one arbitrary group, make_part_file by the contract make_part_file[fmd given].* above)
+   loop.returned_list_is_the_row_groups_written.on_entry / .preserved, returns_the_row_groups_written,
+   group.one_directory_one_file_one_part_from_this_groups_frame, group.file_is_root_path_partname_opened_wb_after_its_directory,
+   group.every_file_opened_holds_a_returned_row_group_labelled_with_it   every file opened 'wb' / directory created in the loop is matched by
+        exactly one row group of the returned list whose chunks carry file_path = join_path(path, partname)      (seed C09-m12)
+   group.file_opened_is_written_as_a_part_file[any group], group.only_an_empty_group_creates_nothing
+ effects.  (structural, ast)  io_errors_propagate[<fn>]: no try/except (bare / Exception / BaseException / OSError / IOError) around a file
+   operation whose handler does not raise on every path - one REFUTED obligation per swallowing handler, named [<fn>: <operations>];
+   unclassifiable handler = unknown;  file_closed_by_with_or_raising_finally[<fn>]      (seed C19-m12)
+   REFUTED on the unchanged tree: [ParquetFile.remove_row_groups: remove_with()] = finding C09-P-remove-row-groups-swallows-failed-removal
  thrift_object_model.  copy / __copy__ / __setattr__ / __getattr__ of cencoding.ThriftObject have the text the heap model encodes
 Findings: contracts/findings.jsonl; native triage: tools/partf_native.py; probe: tools/partf_probe.py; canaries: canaries/C02parts.json.
 """
@@ -92,6 +102,7 @@ _ids = itertools.count(1)
 
 FID_EMPTY = "C02-P-make-part-file-empty-frame-leaves-file-empty"      # what is left of the empty-frame finding after fix f7aae56
 FID_NOFMD = "C02-P-make-part-file-default-fmd-raises"
+FID_RMSWALLOW = "C09-P-remove-row-groups-swallows-failed-removal"
 
 
 # ---- lists of row groups ----------------------------------------------------------------------------------------------------
@@ -1398,6 +1409,244 @@ def _run_write_multi(ctx, funcs, timeout, append, partition, scheme, inv_fmd):
 
 
 # =============================================================================================================================
+# 3b. writer.partition_on_columns: every file opened / directory created in the group loop holds exactly one RETURNED row group
+# =============================================================================================================================
+class POCEngine(PEngine):
+    """+ `[]` is a list object (rgs = []; rgs.append(rg)); `f(*xs)` hands the starred value on as one opaque argument"""
+
+    def e_List(self, e, p):
+        if not e.elts:
+            return [(p, new_list(self, p, LV(0, lambda k: z3.IntVal(0))))]
+        return PEngine.e_List(self, e, p)
+
+    def e_Starred(self, e, p):
+        return [(q, Opaque(("star", ast.unparse(e.value)[:60]))) for q, v in self.ev(e.value, p)]
+
+
+def run_partition_on_columns(ctx, funcs, timeout, with_field):
+    res = Results()
+    tag = f"partition_on_columns[{'hive' if with_field else 'drill'}]."
+    GROWS = z3.Function("RowsOfGroup", I, I)
+    root, partname = Opaque("arg:root_path"), Opaque("arg:partname")
+    comp_arg, stats_arg, ow, mk = Opaque("arg:compression"), Opaque("arg:stats"), Opaque("arg:open_with"), Opaque("arg:mkdirs")
+    N, DS = z3.Int("n_dataset_row_groups"), z3.Int("dataset_num_rows")
+    holder = {}
+
+    def produced(p):
+        return p.ghost.get("produced", LV(0, lambda k: z3.IntVal(0)))
+
+    class ColList:
+        tracked = False
+
+        def call_method(self, eng, p, name, args, kw, node):
+            return [(p, NONE)]
+
+        def truth(self, eng, p):
+            return z3.Bool("some_column_remains_after_the_partition_columns")
+
+    class ColsArg:
+        """the `columns` argument: a non-empty list of column names"""
+        tracked = False
+
+        def len(self, eng, p):
+            n = z3.Int("n_partition_columns")
+            p.pc.append(n >= 1)
+            return PyI(n)
+
+        def getitem(self, eng, p, i, node):
+            return Opaque(("columns[]", ast.unparse(node)))
+
+        def for_loop(self, eng, p, st):
+            outs = []
+            for b in eng.assign(st.target, Opaque(("column", next(eng.counter))), p):
+                for r in eng.block(st.body, [b]):
+                    if r.ctl in ("continue", "break"):
+                        r.ctl = None
+                    outs.append(r)
+            return outs
+
+    class DataP:
+        tracked = False
+
+        def call_method(self, eng, p, name, args, kw, node):
+            if name == "groupby":
+                return [(p, Custom(Groups()))]
+            raise Unsupported("data." + name)
+
+    class Group:
+        """one group of the groupby: `empty` <=> it has no rows (it has all the columns of data, and some column remains)"""
+        tracked = False
+
+        def __init__(self, g):
+            self.g = g
+            self.df = Frame(GROWS(g), tag="group_frame")
+
+        def attr(self, eng, p, name):
+            if name == "empty":
+                return PyB(GROWS(self.g) == 0)
+            return Opaque(("group." + name,))
+
+        def getitem(self, eng, p, i, node):
+            return Custom(self.df)
+
+        def len(self, eng, p):
+            return PyI(GROWS(self.g))
+
+    class Groups:
+        tracked = False
+
+        def for_loop(self, eng, p, st):
+            rgs_names = [n for n, v in sorted(p.env.items()) if isinstance(v, Custom) and isinstance(v.h, ListObj)]
+            track = []
+            for n in rgs_names:
+                s_, m, secs = solve(list(p.pc) + [z3.Not(lv_eq(p.env[n].h.val(p), produced(p)))], timeout)
+                if s_ == PROVED:
+                    track.append(n)
+            res.add(tag + "loop.returned_list_is_the_row_groups_written.on_entry", PROVED if track else REFUTED, None, 0.0, "z3",
+                    "before the first group the list that will be returned is empty")
+            outs = []
+            body_names = assigned_names(st.body)
+            for kind in ("exit", "body"):
+                q = p.fork()
+                k = next(_ids)
+                PAT, P = z3.Function(f"written_rg!{k}", I, I), z3.Int(f"n_written!{k}")
+                q.pc.append(P >= 0)
+                q.ghost["produced"] = LV(P, lambda j, PAT=PAT: PAT(j))
+                for n in track:
+                    q.env[n].h.set(q, produced(q))
+                q.ghost["loop_ev_start"] = len(q.ghost.get("ev", []))
+                if kind == "exit":
+                    outs.append(q)
+                    continue
+                for n in body_names:
+                    if n in q.env and n not in track:
+                        q.env[n] = Opaque(("stale", n))
+                g = eng.fresh_int("g_group")
+                q.pc += [g >= 0, GROWS(g) >= 0]
+                grp = Group(g)
+                for b in eng.assign(st.target, Tup([Opaque(("key", str(g))), Custom(grp)]), q):
+                    for r in eng.block(st.body, [b]):
+                        if r.ctl in (None, "continue"):
+                            r.ctl = None
+                            self.end_of_body(eng, r, track, grp)
+                        elif r.ctl == "break":
+                            raise Unsupported("break in the group loop")
+                        else:
+                            outs.append(r)
+            return outs
+
+        def end_of_body(self, eng, r, track, grp):
+            base = list(r.pc) + list(r.axioms)
+            evs = r.ghost.get("ev", [])[r.ghost["loop_ev_start"]:]
+            for n in track:
+                s_, m, secs = solve(base + [z3.Not(lv_eq(r.env[n].h.val(r), produced(r)))], timeout)
+                res.add(tag + "loop.returned_list_is_the_row_groups_written.preserved", s_,
+                        model_of(m, length=r.env[n].h.val(r).n, row_groups_written=produced(r).n, rows_of_this_group=grp.df.n), secs, "z3",
+                        "after each group: the list returned == the row groups written so far, in order - a row group that was written into "
+                        "a file is appended, exactly once")
+            opens = [e for e in evs if e[0] == "open"]
+            mkd = [e for e in evs if e[0] == "mkdirs"]
+            mpf = [e for e in evs if e[0] == "make_part_file"]
+            if not opens and not mkd and not mpf:
+                empty = solve(base + [grp.df.n != 0], timeout)[0] == PROVED
+                res.add(tag + "group.only_an_empty_group_creates_nothing", PROVED if empty else REFUTED, None, 0.0, "trace+z3",
+                        "a group is skipped (no directory, no file, no row group) only if it has no rows")
+                return
+            ok = len(opens) == 1 and len(mkd) == 1 and len(mpf) == 1
+            path_ok = fp_ok = False
+            if ok:
+                o, m_, d = opens[0], mpf[0], mkd[0]
+                a, kw = m_[1], m_[2]
+                full, dirp = o[2], d[1]
+                parts = full.h.parts if isinstance(full, Custom) and isinstance(full.h, JoinedPath) else []
+                dparts = dirp.h.parts if isinstance(dirp, Custom) and isinstance(dirp.h, JoinedPath) else []
+                path_ok = len(parts) == 3 and parts[0] is root and parts[2] is partname and len(dparts) == 2 and dparts[0] is root \
+                    and dparts[1] is parts[1] and o[3] == "wb" and evs.index(d) < evs.index(o)
+                ok = (isinstance(a[0], Custom) and isinstance(a[0].h, FileTok) and a[0].h.k == o[1] and isinstance(a[1], Custom)
+                      and a[1].h is grp.df and isinstance(a[2], Opaque) and a[2].tag == "fmd.schema" and kw.get("compression") is comp_arg
+                      and isinstance(kw.get("fmd"), Custom) and kw["fmd"].h is holder["fmd"] and kw.get("stats") is stats_arg)
+                fp = r.ghost.get("fp:%s" % m_[3])
+                rel = fp[1].h.parts if fp and fp[0] == "all" and isinstance(fp[1], Custom) and isinstance(fp[1].h, JoinedPath) else []
+                fp_ok = path_ok and len(rel) == 2 and rel[0] is parts[1] and rel[1] is partname
+            res.add(tag + "group.one_directory_one_file_one_part_from_this_groups_frame", PROVED if ok else REFUTED,
+                    None if ok else {"mkdirs": len(mkd), "opens": len(opens), "make_part_file_calls": len(mpf)}, 0.0, "trace",
+                    "per group with rows: mkdirs once, then exactly one file opened, make_part_file once into it with group[remaining], "
+                    "fmd.schema, compression, fmd=fmd, stats")
+            res.add(tag + "group.file_is_root_path_partname_opened_wb_after_its_directory", PROVED if path_ok else REFUTED, None, 0.0, "trace",
+                    "the file is join_path(root_path, path, partname), opened 'wb', after mkdirs(join_path(root_path, path))")
+            res.add(tag + "group.every_file_opened_holds_a_returned_row_group_labelled_with_it", PROVED if fp_ok else REFUTED,
+                    None if fp_ok else {"file_path_on_every_chunk": bool(fp and fp[0] == "all"), "rows_of_this_group": "0 possible"
+                                        if solve(base + [grp.df.n == 0], timeout)[0] == REFUTED else "> 0"}, 0.0, "trace+z3",
+                    "every file opened for writing (and directory created) in the group loop is matched by exactly one row group in the "
+                    "returned list whose chunks all carry file_path = join_path(path, partname): nothing unreferenced is left behind")
+
+    def h_join_path(eng, p, args, kw, node):
+        return [(p, Custom(JoinedPath(list(args))))]
+
+    def h_open_with(eng, p, args, kw, node):
+        mode = args[1].s if len(args) > 1 and isinstance(args[1], Str) else "?"
+        k = next(_ids)
+        ev(p, "open", k, args[0], mode)
+        return [(p, Custom(FileTok(k)))]
+
+    def h_mkdirs(eng, p, args, kw, node):
+        ev(p, "mkdirs", args[0] if args else None)
+        return [(p, NONE)]
+
+    def h_make_part_file(eng, p, args, kw, node):
+        """contract = make_part_file[fmd given].* of THIS module (derived from its real source in the same run): returns None without
+        writing iff len(data) == 0; else the file holds a complete part file and the new row group is returned"""
+        fr = args[1].h if len(args) > 1 and isinstance(args[1], Custom) and isinstance(args[1].h, Frame) else None
+        rows = fr.n if fr is not None else eng.fresh_int("rows")
+        key = "w%d" % next(_ids)
+        rid = eng.fresh_int("new_rg")
+        ev(p, "make_part_file", list(args), dict(kw), key)
+        eng.oblige(p, "partition_on_columns.group.file_opened_is_written_as_a_part_file[any group]", "post", rows > 0, node,
+                   note="a file opened 'wb' (and the directory created for it) belongs to a group WITH rows: make_part_file writes nothing "
+                        "for an empty frame and returns None - a 0-byte part file in a spurious partition directory that _metadata never references")
+        p.pc += [rid < 0, NR(rid) == rows]
+        p.ghost["produced"] = produced(p).append_if(rows > 0, rid)
+        return [(p, Opt(z3.Not(rows > 0), Custom(RG(rid, key=key))))]
+
+    def h_list(eng, p, args, kw, node):
+        if args and isinstance(args[0], Custom) and isinstance(args[0].h, DataP):
+            return [(p, Custom(ColList()))]
+        return [(p, args[0] if args else new_list(eng, p, LV(0, lambda k: z3.IntVal(0))))]
+
+    def h_sorted(eng, p, args, kw, node):
+        return [(p, args[0])]
+    handlers = {"join_path": h_join_path, "open_with": h_open_with, "mkdirs": h_mkdirs, "make_part_file": h_make_part_file, "list": h_list,
+                "sorted": h_sorted, "with_exit": lambda e, q, st: [q]}
+    eng = POCEngine(funcs=funcs, handlers=handlers, opaque_calls=True)
+    p = Path()
+    p.pc += [N >= 0, DS >= 0]
+    fmd0, _ = dataset_fmd(eng, p, N, DS)
+    holder["fmd"] = fmd0
+    columns = Custom(ColsArg())
+    outs = eng.run("partition_on_columns", p, [Custom(DataP()), columns, root, partname, Custom(fmd0), comp_arg, ow, mk],
+                   {"with_field": PyB(with_field), "stats": stats_arg})
+    discharge_engine(res, eng, tag, timeout, None, lambda fn, nm: (nm.split("@L")[0] if fn == "partition_on_columns" else fn + "." + nm.split("@L")[0]))
+    n_ret = 0
+    for q in outs:
+        if q.ctl[0] != "ret":
+            continue
+        n_ret += 1
+        base = list(q.pc) + list(q.axioms)
+        rv = q.ctl[1]
+        lv = as_lv(q, rv)
+        if lv is None:
+            res.add(tag + "returns_the_row_groups_written", REFUTED, {"returns": show(rv)}, 0.0, "trace")
+            continue
+        s_, m, secs = solve(base + [z3.Not(lv_eq(lv, produced(q)))], timeout)
+        res.add(tag + "returns_the_row_groups_written", s_, model_of(m, returned=lv.n, written=produced(q).n), secs, "z3",
+                "the list returned == the row groups written into files by this call, in order (the caller extends fmd.row_groups with it)")
+    if n_ret == 0:
+        ctx.engine_error(tag + " no returning path")
+    ctx.vacuity["covers"] += n_ret
+    return res
+
+
+# =============================================================================================================================
 # 4. api.ParquetFile.write_row_groups (append through a handle) and the dispatch of writer.write
 # =============================================================================================================================
 class NamedV:
@@ -1735,6 +1984,140 @@ def run_write_dispatch(ctx, funcs, timeout):
 
 
 # =============================================================================================================================
+# 4b. I/O errors propagate: no handler on the write path swallows a failing file operation; files are closed by `with`
+# =============================================================================================================================
+EFFECT_FUNCS_W = ("make_part_file", "make_row_group", "write_column", "write_multi", "partition_on_columns", "write_simple",
+                  "write_simple.write_to_file", "write_common_metadata", "update_file_custom_metadata", "write_thrift", "overwrite", "merge")
+EFFECT_FUNCS_A = ("ParquetFile.write_row_groups", "ParquetFile._write_common_metadata", "ParquetFile.remove_row_groups", "ParquetFile._sort_part_names")
+FILE_METHODS = {"write", "close", "flush", "seek", "truncate", "writelines", "rename", "rm", "mv", "remove", "makedirs", "mkdirs"}
+IO_CALLS = {"open_with", "mkdirs", "default_mkdirs", "default_open", "open", "remove_with", "write_thrift", "make_row_group", "make_part_file",
+            "write_column", "write_common_metadata", "write_to_file", "write_simple", "write_multi", "partition_on_columns", "write_row_groups",
+            "remove_row_groups", "_write_common_metadata", "_sort_part_names", "update_file_custom_metadata"}
+BROAD = {"Exception", "BaseException", "OSError", "IOError", "EnvironmentError", "io.UnsupportedOperation"}
+
+
+def _io_ops(stmts):
+    """file operations syntactically inside these statements: method calls write/close/flush/.. , the I/O callables, `with` blocks"""
+    out = []
+    for st in stmts:
+        for n in ast.walk(st):
+            if isinstance(n, ast.Call):
+                if isinstance(n.func, ast.Attribute) and n.func.attr in FILE_METHODS | IO_CALLS:
+                    out.append(ast.unparse(n.func) + "()")
+                elif isinstance(n.func, ast.Name) and n.func.id in IO_CALLS:
+                    out.append(n.func.id + "()")
+            elif isinstance(n, (ast.With, ast.AsyncWith)):
+                out.append("with " + ast.unparse(n.items[0].context_expr)[:40])
+    return out
+
+
+def _always_raises(stmts):
+    """True: every path through the handler body ends in `raise`; False: some path falls through; None: cannot classify"""
+    if not stmts:
+        return False
+    for st in stmts[:-1]:
+        if isinstance(st, (ast.Return, ast.Continue, ast.Break)):
+            return False
+        if isinstance(st, (ast.While, ast.For, ast.Try)):
+            return None
+    last = stmts[-1]
+    if isinstance(last, ast.Raise):
+        return True
+    if isinstance(last, ast.If):
+        a, b = _always_raises(last.body), _always_raises(last.orelse)
+        if a is None or b is None:
+            return None
+        return a and b
+    if isinstance(last, (ast.While, ast.For, ast.Try, ast.With)):
+        return None
+    return False
+
+
+def _catches_io(h):
+    if h.type is None:
+        return "bare except"
+    names = [ast.unparse(e) for e in (h.type.elts if isinstance(h.type, ast.Tuple) else [h.type])]
+    hit = [n for n in names if n in BROAD or n.split(".")[-1] in BROAD]
+    return "except " + ", ".join(hit) if hit else None
+
+
+def run_effects(ctx, w, a):
+    res = Results()
+    for mod, funcs, names in (("writer", w, EFFECT_FUNCS_W), ("api", a, EFFECT_FUNCS_A)):
+        for q in names:
+            if q not in funcs:
+                continue
+            fn = funcs[q].tree
+            body = [n for n in fn.body]
+            swallowed, unclear = [], []
+            todo = list(body)
+            nodes = []
+            while todo:
+                n = todo.pop()
+                nodes.append(n)
+                for c in ast.iter_child_nodes(n):
+                    if isinstance(c, (ast.FunctionDef, ast.AsyncFunctionDef, ast.Lambda)) and n is not fn:
+                        continue
+                    todo.append(c)
+            for t in nodes:
+                if not isinstance(t, ast.Try):
+                    continue
+                ops = _io_ops(t.body)
+                if not ops:
+                    continue
+                for h in t.handlers:
+                    what = _catches_io(h)
+                    if what is None:
+                        continue
+                    r = _always_raises(h.body)
+                    rec = {"line": t.lineno, "handler": what, "file_operations_in_the_try": sorted(set(ops))[:5],
+                           "handler_body": ast.unparse(ast.Module(h.body, []))[:80]}
+                    if r is False:
+                        swallowed.append(rec)
+                    elif r is None:
+                        unclear.append(rec)
+            detail_sw = "a handler swallows the failure of a file operation: the caller is told the operation succeeded"
+            for rec in swallowed:       # one obligation per swallowing handler, named by the operations it guards (stable under line moves)
+                res.add(f"effects.io_errors_propagate[{q}: {', '.join(rec['file_operations_in_the_try'][:2])}]", REFUTED, rec, 0.0, "ast", detail_sw)
+            res.add(f"effects.io_errors_propagate[{q}]", UNKNOWN if unclear else PROVED, {"handlers": unclear} if unclear else None, 0.0, "ast",
+                    ("(apart from the handler(s) reported separately) " if swallowed else "") +
+                    "no try/except (bare, Exception, BaseException, OSError / IOError, or a tuple with one) around a file operation - write / close / "
+                    "flush / seek / truncate, open_with, mkdirs, remove_with, a `with` on a file, a callee that writes - whose handler does not "
+                    "raise on every path: a failed write / flush-on-close is the caller's to see (C19: after a failure the dataset is the old or the new one)")
+            # ---- files opened here, or the file handed in, are closed by `with` (close errors propagate) or a finally that lets close() raise
+            opens = [n for n in nodes if isinstance(n, ast.Call) and isinstance(n.func, ast.Name) and n.func.id in ("open_with", "open", "default_open")]
+            params = [x.arg for x in fn.args.args]
+            handed = "f" if q in ("make_part_file",) and "f" in params else None
+            if not opens and handed is None:
+                continue
+            withs = [n for n in nodes if isinstance(n, (ast.With, ast.AsyncWith))]
+            ctx_exprs = [it.context_expr for wn in withs for it in wn.items]
+            bad = []
+            for c in opens:
+                if any(c is e for e in ctx_exprs):
+                    continue
+                # name = open_with(..); with name as f:
+                tgt = [st.targets[0].id for st in nodes if isinstance(st, ast.Assign) and st.value is c and isinstance(st.targets[0], ast.Name)]
+                if tgt and any(isinstance(e, ast.Name) and e.id == tgt[0] for e in ctx_exprs):
+                    continue
+                bad.append(f"L{c.lineno}: {ast.unparse(c)[:50]} is not closed by a `with`")
+            if handed is not None:
+                in_with = any(isinstance(e, ast.Name) and e.id == handed for e in ctx_exprs)
+                fin_close = False
+                for t in nodes:
+                    if isinstance(t, ast.Try) and t.finalbody:
+                        for stx in t.finalbody:          # a plain `f.close()` statement directly in the finally block (not wrapped in a try)
+                            if isinstance(stx, ast.Expr) and isinstance(stx.value, ast.Call) and ast.unparse(stx.value.func) == handed + ".close":
+                                fin_close = True
+                if not (in_with or fin_close):
+                    bad.append(f"the file `{handed}` handed in is neither the subject of a `with` nor closed by a plain `{handed}.close()` in a finally block")
+            res.add(f"effects.file_closed_by_with_or_raising_finally[{q}]", PROVED if not bad else REFUTED, None if not bad else {"handles": bad}, 0.0,
+                    "ast", "every file opened (or, for make_part_file, handed in) is closed by a `with` block - or a finally whose close() may raise - "
+                    "so that a failing close (the final flush) propagates")
+    return res
+
+
+# =============================================================================================================================
 # 5. the ThriftObject heap model vs cencoding.pyx (text of the three methods the model rests on)
 # =============================================================================================================================
 def run_thrift_model(ctx):
@@ -1761,7 +2144,7 @@ def run_thrift_model(ctx):
     return res
 
 
-PARTS = ("model", "mpf", "wcm", "pfwcm", "multi", "wrg", "write")
+PARTS = ("model", "mpf", "wcm", "pfwcm", "multi", "poc", "effects", "wrg", "write")
 
 
 def check(ctx, timeout, parts=None):
@@ -1796,6 +2179,11 @@ def check(ctx, timeout, parts=None):
             for partition, scheme in ((False, "hive"), (True, "hive"), (True, "drill")):
                 guarded(f"write_multi[append={append},partition_on={'no' if not partition else scheme}]", run_write_multi, ctx, w, timeout,
                         append, partition, scheme)
+    if "poc" in parts:
+        for wf in (True, False):
+            guarded(f"partition_on_columns[{'hive' if wf else 'drill'}]", run_partition_on_columns, ctx, w, timeout, wf)
+    if "effects" in parts:
+        guarded("effects", run_effects, ctx, w, a)
     if "wrg" in parts:
         guarded("write_row_groups", run_write_row_groups, ctx, a, timeout)
     if "write" in parts:
